@@ -148,6 +148,10 @@ impl Scaled {
     /// The unit must be one of the two-character abbreviations recognized by [`ScaledUnit::parse`]
     /// (e.g. `"pt"`, `"in"`, `"cm"`). The fractional part is optional.
     pub fn parse_from_string(s: &str) -> Result<Scaled, String> {
+        if let Some(unsigned) = s.strip_prefix('-').filter(|u| !u.starts_with(['-', '+'])) {
+            // The minus sign applies to the whole number, including its fractional part.
+            return Scaled::parse_from_string(unsigned).map(|sc| -sc);
+        }
         if s.len() < 3 {
             return Err(format!(
                 "invalid dimension {s:?}: expected <number><unit> (e.g. 100pt)"
